@@ -14,7 +14,7 @@ RULE = ("exhaustive lattice of dyadic/int endpoints x query values x scalars for
 ANCHORS = ["Interval.contains", "Interval.overlaps", "Interval.intersection", "AngleInterval.__contains__",
            "AngleInterval.contains", "Interval.__truediv__", "Interval.__mul__", "Interval.__round__"]
 REQUIRED = ["interval.contains", "interval.contains.next-to-a-bound", "interval.overlaps", "interval.intersection", "interval.mul.neg", "interval.div.neg",
-            "interval.mul.zero", "interval.round", "interval.reject", "angle.contains.float", "angle.contains.int",
+            "interval.mul.zero", "interval.round", "interval.reject", "angle.reject", "angle.contains.float", "angle.contains.int",
             "angle.len>pi", "angle.wrap", "angle.shift", "angle.contains.interval", "angle.contains.numpy",
             "angle.many-turns-away", "interval.in-operator.interval", "rebound.start-lowered", "rebound.end-raised"]
 ASSUMPTIONS = ["angles within 1e-9 of an interval end are not judged (skipped_band)",
@@ -57,6 +57,12 @@ def run(ctx):
             r = _exc(Interval, a, b)
             if r[0] == "ok":
                 viol("Interval.__init__/start>end-accepted", "Interval(%r,%r) accepted" % (a, b), [a, b])
+            # the same for an angle interval (both ends inside [-2pi, 2pi], so nothing but the order can be objected to)
+            if abs(F(a)) <= 6 and abs(F(b)) <= 6:
+                ctx.feature("angle.reject")
+                r = _exc(AngleInterval, a, b)
+                if r[0] == "ok":
+                    viol("AngleInterval.__init__/start>end-accepted", "AngleInterval(%r,%r) accepted" % (a, b), [a, b])
             continue
         r = _exc(Interval, a, b)
         if r[0] == "exc":
